@@ -78,7 +78,7 @@ impl Scenario for C17 {
 
     fn runs(&self, tier: Tier) -> u64 {
         match tier {
-            Tier::Quick => 12_000,
+            Tier::Quick => 120_000,
             Tier::Thorough => 6_000_000,
         }
     }
